@@ -2,6 +2,24 @@ use std::path::PathBuf;
 use vh::checks;
 use vh::runner::{self, Check, Tier};
 
+#[global_allocator]
+static ALLOC: vh::sim::MeterAlloc = vh::sim::MeterAlloc;
+
+fn smoke() -> i32 {
+    use vh::sim::*;
+    let cfg = ConnCfg { secret: Some(b"topsecret".to_vec()), ..Default::default() };
+    let mut ad = AdapterScript::default();
+    ad.discovery = Some(vec![TargetSpec { identifier: "lobby-1".into(), addr: "[2001:db8::1]:25566".into(), meta: Default::default() }]);
+    ad.discovery_ms = 20_000;
+    let script = LoginScript::default();
+    let out = run_sim(&cfg, &ad, &TransportScript::default(), 7, 1000, vh::client_fn!(|c| drive_login(c, &script).await));
+    for e in &out.events {
+        println!("{e:?}");
+    }
+    println!("end: {} max_alloc={} pulled={} broken={:?}", out.end_label(), out.max_alloc, out.pulled, out.stream_broken);
+    0
+}
+
 fn usage() -> ! {
     eprintln!("usage: verif <ID> [--tier quick|thorough] [--seed N] | verif <ID> --replay <file>");
     std::process::exit(2)
@@ -69,6 +87,9 @@ fn main() {
     });
 
     let code = match id.as_str() {
+        "SMOKE" => smoke(),
+        "C01" => dispatch(checks::auth::C01, tier, seed, replay),
+        "C02" => dispatch(checks::auth::C02, tier, seed, replay),
         "C05" => dispatch(checks::c05::C05, tier, seed, replay),
         "C09" => dispatch(checks::c09::C09, tier, seed, replay),
         "C11" => dispatch(checks::c11::C11, tier, seed, replay),
